@@ -140,7 +140,14 @@ def call_and_compare(api, fn, inputs, documented=None):
             # bucket = the API family (all keyword variants of one function share a root cause)
             raise Violation(f"{api} ({outcome}) modified the caller's {name}: {ch}{d}", ("atoms", api.split("_")[0] + "_" + api.split("_")[1] if api.startswith("orthogonalize") else api))
     if outcome == "raised":
-        raise err
+        # C32 is about the caller's inputs (compared above, also for calls that raise). An
+        # exception raised inside abTEM for this input is a matter of the property that owns
+        # that API (e.g. C26 for Bloch waves), not a C32 violation; an exception without any
+        # abTEM frame is a bug of this harness and propagates.
+        from pbt.core import exception_bucket
+
+        if exception_bucket(err)[0] == "harness":
+            raise err
     return outcome
 
 
@@ -330,7 +337,8 @@ def _fp_sigmas(case, atoms):
         return {chemical_symbols[z]: (s0, 0.5 * s0, 2.0 * s0) for z in sorted(set(atoms.numbers))}
     if kind == "aniso_dict":
         return {chemical_symbols[z]: (s0 * (1 + i), s0, 0.5 * s0) for i, z in enumerate(sorted(set(atoms.numbers)))}
-    if kind == "per_atom":
+    if kind == "per_atom" and case["atoms"].get("lattice") in ("ortho", "cubic", "tetra", None):
+        # per-atom values only where the potential does not replicate atoms to orthogonalize
         return [s0 * (1 + 0.1 * i) for i in range(len(atoms))]
     return s0
 
